@@ -85,7 +85,7 @@ func encode(c *caseJ) []byte {
 
 var singles = []string{"~", "'", "*", "+", ":", "^", "|", "!", "?", "\\", "#", "$", "&", "<", ">", "=", ";", ",", "\x1c", "\x1d", "\x1e", "\x1f", "\n"}
 var multis = []string{"~\n", "'\r\n", "\r\n", "<>", "|-", "*.", "::=", "%%", "ab", "~\r\n", "+-", "^_^", "$1", "#x"}
-var multisUTF8 = []string{"¦", "€", "§", "→", "😀", "€\n", "¦x"}
+var multisUTF8 = []string{"¦", "€", "§", "→", "😀", "€\n", "¦x", "\ufeff", "\u2028", "𝄞", "\u0301"}
 
 // inDomain: the side condition under which the encoding round-trips (what edi_roundtrip assumes,
 // with "first byte is ASCII" relaxed to "first rune decodes"): every delimiter / the release
@@ -199,7 +199,13 @@ var bufSize = 128
 
 // ---- payloads --------------------------------------------------------------------------------
 
-var fillers = []string{"a", "b", "Z", "0", " ", "AB", "é", "€", "😀", "\xff", "\xc3", "\xe2\x82", "\xef\xbf\xbd", "\r", "\n", "\r\n", "\x00"}
+var fillers = []string{"a", "b", "Z", "0", " ", "AB", "é", "€", "😀", "\xff", "\xc3", "\xe2\x82", "\xef\xbf\xbd", "\r", "\n", "\r\n", "\x00",
+	// special runes: U+FEFF (BOM / zero-width no-break space), line and paragraph separators, C0/C1 controls
+	// and DEL, combining marks and joiners, no-break space, 4-byte runes, the last code point, and
+	// truncated encodings (prefixes of EF BB BF, of a 4-byte rune)
+	"\ufeff", "\ufeff", "x\ufeffy", "\u2028", "\u2029", "\x01", "\t", "\x0b", "\x0c", "\x1b", "\x7f", "\u0085",
+	"e\u0301", "\u0301\u0308", "\u200d", "\u200b", "\u00a0", "\u00ad", "𝄞", "\U0010ffff", "\U00010000",
+	"\xef\xbb", "\xef", "\xf0\x9f\x98", "\xf0\x9f", "\xc2", "\xed\xa0\x80", "\xc0\x80"}
 
 func genData(r *vh.Rng, c *caseJ, long int) []byte {
 	sp := specialsOf(c)
@@ -266,7 +272,7 @@ func genOK(r *vh.Rng) *caseJ {
 		for {
 			var nm []byte
 			if r.Chance(0.8) {
-				nm = []byte(r.PickStr("A", "ISA", "GS", "ST", "N1", "é1"))
+				nm = []byte(r.PickStr("A", "ISA", "GS", "ST", "N1", "é1", "\ufeffISA", "\ufeff", "A\ufeff", "\u2028S", "\x00A"))
 			} else {
 				nm = genData(r, c, 0)
 			}
@@ -297,7 +303,7 @@ func genOK(r *vh.Rng) *caseJ {
 		longAt := -1
 		longN := 0
 		if r.Chance(0.25) {
-			longAt, longN = r.Pick(nel), r.Between(bufSize/3, bufSize)
+			longAt, longN = r.Pick(nel), r.Between(bufSize/4, bufSize*3/4)
 			if r.Chance(0.08) {
 				longN = r.Between(300, 700)
 			}
